@@ -253,7 +253,17 @@ class Gen:
             payload = ""
         else:
             payload = full + "0"
+        if rng.random() < 0.25:
+            # hex look-alikes with characters outside ASCII (what a corrupted byte turns into)
+            pos = rng.randrange(len(full))
+            payload = full[:pos] + rng.choice(["µ", "\ufffd", "é", "０", "𝟘"]) + full[pos + 1:]
         self.hostile += 1
+        if rng.random() < 0.2:
+            raw = f"{nid};255;4;0;{sub};".encode() + full.encode()
+            pos = rng.randrange(len(raw) - len(full), len(raw))
+            raw = raw[:pos] + bytes([rng.choice([0xFF, 0xC3, 0x80, 0xE2])]) + raw[pos + 1:]
+            self.ops.append(["raw", raw.hex()])
+            return
         self.emit_line(f"{nid};255;4;0;{sub};{payload}")
 
     def g_stream_other(self):
@@ -331,6 +341,13 @@ class Gen:
             else:
                 text = base.replace(";", ";;", 1)
         text = text.replace("\n", " ")
+        if rng.random() < 0.15:
+            raw = text.encode("utf-8")
+            if raw:
+                pos = rng.randrange(len(raw))
+                raw = raw[:pos] + bytes([rng.choice([0xFF, 0xFE, 0xC3, 0x80, 0xE2, 0xF0])]) + raw[pos + 1:]
+                self.ops.append(["raw", raw.replace(b"\n", b" ").hex()])
+                return
         self.emit_line(text, rng.choice(["\n", "\n", "\r\n"]))
 
     # -- controller ------------------------------------------------------------------------
@@ -363,15 +380,18 @@ class Gen:
                 pass
         form = rng.randrange(10)
         vtype = sub
-        if form == 0:
+        if form < 3:
             vtype = str(sub)
-        elif form == 1:
+        elif form < 5:
             vtype = ["enum", sub]
         kw = {"ack": 1} if rng.random() < 0.15 else {}
         self.ops.append(["set", nid, cid, vtype, value, kw])
         action, _exp = self.model.set_child_value_plan(nid, cid, sub, value)
         if action == "store" and tables.valid_frame(self.version, nid, cid, 1, 0, sub, str(value)):
             self.model.store_desired(nid, cid, sub, str(value))
+        if action == "store" and rng.random() < 0.35:
+            # the node asks for the very value the controller just tried to change
+            self.emit_line(f"{nid};{cid};2;{rng.choice([0, 1])};{sub};")
 
     def g_ctl_fw(self):
         rng = self.rng
@@ -487,13 +507,35 @@ def base_cfg(rng, flavours, versions=tables.VERSIONS, persistence=(None,), sched
         "utc_offset": rng.choice([0, 0, 3600, 7200, -18000, 19800, 45900, -43200]),
         "sched": sched or {"policy": "serial"},
     }
+    respell(rng, cfg)
     return cfg
+
+
+def respell(rng, cfg):
+    """With some probability configure the gateway with an equivalent spelling of its version."""
+    cfg.pop("version_str", None)
+    if rng.random() < 0.2:
+        if cfg["version"] != "2.2":
+            cfg["version_str"] = cfg["version"] + rng.choice([".0", ".0", ".1", ".3"])
+        else:
+            cfg["version_str"] = rng.choice(["2.2.0", "2.2.0", "2.2.1", "2.3", "2.3.2", "2.10"])
 
 
 def chunkify(rng, ops, max_lines=5, p_join=0.6):
     """Merge runs of consecutive line ops into multi-line chunks (device flavours)."""
     out = []
+    solo = False
     for op in ops:
+        # an id request is kept in a chunk of its own: which id it was given is only observable
+        # through the reply (or, for a sleeping requester, through the one new node)
+        parts = op[1].split(";") if op[0] == "line" else []
+        is_idreq = len(parts) == 6 and parts[2] == "3" and parts[4] == "3"
+        if op[0] == "line" and (is_idreq or solo):
+            out.append(["chunk", [[op[1], op[2] if len(op) > 2 else "\n"]]])
+            solo = is_idreq
+            if not is_idreq:
+                solo = False
+            continue
         if op[0] == "line" and out and out[-1][0] == "chunk" and len(out[-1][1]) < max_lines and rng.random() < p_join:
             out[-1][1].append([op[1], op[2] if len(op) > 2 else "\n"])
         elif op[0] == "line":
